@@ -93,13 +93,17 @@ def gen(tier, rng):
                           sig=key + "\n#probes after CLEAR", tag="probe-clear", meta=("probe-clear", pi, None)))
     # abandoned frames: RUN n / CLEAR must not find what an earlier run or direct statement left on the stack
     pi = n
-    for prog, finals in FRAME_PROGS:
+    # ... and a direct DATA line, which is rejected, must not leave its constants behind the program's: the program reads to the end
+    DATA_PROGS = [(["10 READ A:PRINT A;:GOTO 10", "20 DATA 1,2"], ["RUN", "CLEAR:READ A,B:PRINT A;B:READ C:PRINT C", "RUN 10", "RESTORE:GOTO 10"]),
+                  (['10 READ A$,B$:PRINT A$;B$', '20 DATA "p"', '30 DATA "q"', "40 READ C$:PRINT C$"], ["RUN", "CLEAR:GOTO 40", "RUN 40"])]
+    DATA_PREFIXES = [["DATA 99"], ["RUN", "DATA 99"], ["RUN", "IF 1 THEN DATA 7,8", "RUN"], ["PRINT 1", 'DATA "z"'], ["RUN", "DATA 5", "CLEAR"]]
+    for prog, finals, prefixes in [(p_, f_, FRAME_PREFIXES) for p_, f_ in FRAME_PROGS] + [(p_, f_, DATA_PREFIXES) for p_, f_ in DATA_PROGS]:
         typeit = [sess.E(l) for l in prog]
         key = "\n".join(prog)
         for final in finals:
             cases.append(Case(sess.session(["R5000"] + typeit + final_run(prog, [], final)), sig=key + "\n#then " + final, tag="fresh",
                               meta=("fresh", pi, None)))
-            for pre in FRAME_PREFIXES:
+            for pre in prefixes:
                 calls = ["R5000"] + typeit
                 for d in pre:
                     calls += [sess.E(d), "R5000"]
